@@ -25,6 +25,23 @@ CLAIMS = {
  "C04": ("proof: executed layout is a Permutation of the registered systems for programs of any length, id table = executed list, "
          "groups never over capacity (constants re-read from the source, params_ok re-proved); tie: S1 (shape hook + identification run)",
          "per-dispatch run counts are the executor model's part", "invariant induction + differential correspondence", "5 C04"),
+ "C05": ("proof: C05_parallel_dispatch_equals_sequential_dispatch: for every planned program, every value type, every family of "
+         "effects that respect the declared access and every initial world, EVERY trace of k parallel dispatches ends in the world "
+         "(resources + system states) of k sequential dispatches (commutation of non-conflicting effects + confluence of "
+         "interleavings + plan_isolated); batches: composition respects every covering declaration (with C07). tie: S2 value "
+         "prediction: order-sensitive 64-bit hash updates, final world and per-system states of the real parallel run (free / held / "
+         "forced-overlap / jitter schedules, pools 1,2,4,16, joined-group funnel plans) must equal the sequential twin run",
+         "effects are applied atomically at release in the model; batches whose inner-dispatch count depends on the world are "
+         "outside the batch lemma (the harness's MultiDispatcher counts are fixed); rayon modelled",
+         "confluence proof + differential correspondence", "5 C05"),
+ "C07": ("proof: C07_batch_accessor_covers_controller_and_all_inner_systems by induction on nesting (any depth); "
+         "C07_side_by_side_subtrees_do_not_conflict: registrations placed side by side do not conflict on anything declared inside "
+         "them; the inner dispatcher is planned by the same planner (all level theorems apply to it); inner events lie inside the "
+         "batch window (oracle `inside` + lemma). tie: S1 nested programs with oracle `isolated` on effective access against the REAL "
+         "outer layout, S2 traces (no_overlap at any depth, inside, inner once/preds_done per inner dispatch)",
+         "KNOWN FINDING KF1: thread-local systems inside a batch builder are invisible to the accessor (stated on the model as "
+         "C07_KF1_..., witness corpus/exec-kf1.txt)",
+         "structural induction on nesting + differential correspondence", "5 C07"),
  "C10": ("proof: C10_every_skipped_stage_is_forced for all registration programs (invariant `justified` carried through the whole "
          "registration history: a skipped stage holds an earlier-registered conflicting system or a dependency sits in it or behind it), "
          "corollary: compatible dependency-free systems share the first stage behind the barrier; max_threads = widest stage; tie: S1, "
@@ -65,7 +82,7 @@ CLAIMS = {
          "stage/group and are outside the text",
          "invariant induction + differential correspondence", "5 C20"),
 }
-REGISTERED = ["C01", "C02", "C03", "C04", "C10", "C12", "C13", "C14", "C18", "C20"]
+REGISTERED = ["C01", "C02", "C03", "C04", "C05", "C07", "C10", "C12", "C13", "C14", "C18", "C20"]
 
 def main():
     props = [json.loads(l) for l in open(os.path.join(VERIF, "properties.jsonl"))]
